@@ -240,6 +240,11 @@ def c02_scope(tier):
     P.append(("scalar-shared-gate", B1 + S + "Bundle g = (s > 2) : b;\nBundle m = b * s;\n"))
     P.append(("all-sig-of-each", B1 + S + "Signal r = all(b * 2) >= s;\nSignal q = any(b + 1) < s;\n"))
     P.append(("all-sig-member-name", B1 + M + "Signal r = all(b) > m;\n"))
+    V = 'Signal v = ("signal-V", 9);\n'
+    P.append(("all-sig-cond-const", B1 + S + "Signal r = (all(b) > s) : 7;\n"))
+    P.append(("all-sig-cond-signal", B1 + S + V + "Signal r = (all(b) > s) : v;\nSignal q = (any(b) < s) : (v + 1);\n"))
+    P.append(("all-const-cond-signal", B1 + V + "Signal r = (all(b) > 4) : v;\n"))
+    P.append(("all-sig-cond-self", B1 + S + "Signal r = (all(b) > s) : s;\n"))
     P.append(("zero-members", 'Bundle b = { ("signal-A", 0), ("signal-B", 5) };\nBundle r = b + 10;\nSignal q = all(b) > 3;\nSignal p = any(b) < 1;\n'))
     return P
 
